@@ -27,10 +27,11 @@ def absSerErr : Src.renet.packet.SerializationError → SerErr
 /-- `Packet::to_bytes` on ANY cursor (`off ≤ buf.len()`), for every model packet whose model encoding is defined
     (`p.enc = .ok bytes`: all varints `< 2^62`, ack ranges non-empty and ordered — decidable): if the bytes fit,
     exactly the model's bytes are written at the offset, the offset advances and their number is returned;
-    otherwise `Err(BufferTooShort)`.  No panic. -/
+    otherwise `Err(BufferTooShort)`.  No panic.  (`Res.forget`: an `Err` of the generated function also carries the
+    cursor as the failed write left it; the model does not track it.) -/
 theorem packet_to_bytes (p : Packet) (b : OctetsMut) (hb : b.off ≤ b.buf.length) (bytes : Bytes)
     (henc : p.enc = .ok bytes) :
-    Src.renet.packet.Packet.to_bytes (reprPacket p) b =
+    (Src.renet.packet.Packet.to_bytes (reprPacket p) b).forget =
       if b.off + bytes.length ≤ b.buf.length then
         .ok ({ buf := b.buf.take b.off ++ toNats bytes ++ b.buf.drop (b.off + bytes.length), off := b.off + bytes.length },
              bytes.length)
@@ -41,7 +42,7 @@ theorem packet_to_bytes (p : Packet) (b : OctetsMut) (hb : b.off ≤ b.buf.lengt
 /-- on a fresh buffer: the written prefix / the error is what the model's `Packet.toBytes buf.len()` returns -/
 theorem packet_to_bytes_fresh (p : Packet) (buf : List Nat) (bytes : Bytes) (henc : p.enc = .ok bytes) :
     mapRes (fun r => ofNats (r.1.buf.take r.2)) absSerErr
-        (Src.renet.packet.Packet.to_bytes (reprPacket p) (OctetsMut.with_slice buf)) =
+        (Src.renet.packet.Packet.to_bytes (reprPacket p) (OctetsMut.with_slice buf)).forget =
       Packet.toBytes buf.length p := by
   have h := packet_to_bytes p (OctetsMut.with_slice buf) (Nat.zero_le _) bytes henc
   rw [h]
@@ -66,13 +67,13 @@ example :
       .ok (⟨[4, 0x41, 0x2c, 39, 4, 1, 14, 9, 0], 8⟩, 8) := by decide +kernel
 example :
     Src.renet.packet.Packet.to_bytes (.Ack 300 [⟨10, 20⟩, ⟨35, 40⟩]) (OctetsMut.with_slice (List.replicate 7 0)) =
-      .err .BufferTooShort := by decide +kernel
+      .err (.BufferTooShort, ⟨[4, 0x41, 0x2c, 39, 4, 1, 14], 7⟩) := by decide +kernel
 
 /-- `Packet::from_bytes` on a read cursor over `pre ++ rest` standing after `pre` (every byte sequence, every
     position): it never panics; it returns the model decoder's packet and leaves the cursor where the model's
     remaining input starts, or fails with the model's error. -/
 theorem packet_from_bytes (pre rest : Bytes) :
-    Src.renet.packet.Packet.from_bytes ⟨toNats (pre ++ rest), pre.length⟩ =
+    (Src.renet.packet.Packet.from_bytes ⟨toNats (pre ++ rest), pre.length⟩).forget =
       match Packet.decode rest with
       | .ok (p, r) => .ok (⟨toNats (pre ++ rest), (pre ++ rest).length - r.length⟩, reprPacket p)
       | .error e => .err (reprSerErr e) := by
@@ -87,7 +88,7 @@ theorem packet_from_bytes (pre rest : Bytes) :
 
 /-- on a fresh cursor: the packet / error of the model's `Packet.fromBytes` -/
 theorem packet_from_bytes_fresh (buf : Bytes) :
-    mapRes Prod.snd id (Src.renet.packet.Packet.from_bytes (Octets.with_slice (toNats buf))) =
+    mapRes Prod.snd id (Src.renet.packet.Packet.from_bytes (Octets.with_slice (toNats buf))).forget =
       match Packet.fromBytes buf with
       | .ok p => .ok (reprPacket p)
       | .error e => .err (reprSerErr e) := by
@@ -106,10 +107,11 @@ example :
 example :
     Src.renet.packet.Packet.from_bytes (Octets.with_slice [4, 0x41, 0x2c, 39, 4, 1, 14, 9]) =
       .ok (⟨[4, 0x41, 0x2c, 39, 4, 1, 14, 9], 8⟩, .Ack 300 [⟨10, 20⟩, ⟨35, 40⟩]) := by decide +kernel
-example : Src.renet.packet.Packet.from_bytes (Octets.with_slice [2, 5, 1, 7, 0, 0, 1, 9]) = .err .InvalidNumSlices := by
+example : Src.renet.packet.Packet.from_bytes (Octets.with_slice [2, 5, 1, 7, 0, 0, 1, 9]) =
+    .err (.InvalidNumSlices, ⟨[2, 5, 1, 7, 0, 0, 1, 9], 6⟩) := by decide +kernel
+example : Src.renet.packet.Packet.from_bytes (Octets.with_slice [4, 0x41]) = .err (.BufferTooShort, ⟨[4, 0x41], 1⟩) := by
   decide +kernel
-example : Src.renet.packet.Packet.from_bytes (Octets.with_slice [4, 0x41]) = .err .BufferTooShort := by decide +kernel
-example : Src.renet.packet.Packet.from_bytes (Octets.with_slice [9]) = .err .InvalidPacketType := by decide +kernel
+example : Src.renet.packet.Packet.from_bytes (Octets.with_slice [9]) = .err (.InvalidPacketType, ⟨[9], 1⟩) := by decide +kernel
 end D
 
 end RenetVerif.SrcTie
